@@ -68,4 +68,134 @@ theorem lookup_fuel {st : Core} (hwf : TreeWF st) (ty : Nat) (f : Nat) :
             have hlt : p < o := hwf.parent_lt o p (by simp [parentOf, hr, hp])
             exact ih p (by omega) k
 
+/-! ### `take_context` un-shadows the next provider outward -/
+
+theorem chain_modOwner (fuel : Nat) (st : Core) (a : Nat) (g : OwnerRec → OwnerRec)
+    (ha : ∀ r, (g r).alive = r.alive) (hp : ∀ r, (g r).parent = r.parent) (o : Nat) :
+    chain fuel (st.modOwner a g) o = chain fuel st o := by
+  induction fuel generalizing o with
+  | zero => rfl
+  | succ n ih =>
+    simp only [chain]
+    rw [modOwner_get]
+    by_cases hoa : o = a
+    · simp only [hoa, if_true]
+      cases hr : st.owners[a]? with
+      | none => rfl
+      | some r =>
+        simp only [Option.map_some, ha, hp]
+        split
+        · rfl
+        · cases r.parent with
+          | none => rfl
+          | some p => simp only; rw [ih]
+    · simp only [hoa, if_false]
+      cases hr : st.owners[o]? with
+      | none => rfl
+      | some r =>
+        simp only
+        split
+        · rfl
+        · cases r.parent with
+          | none => rfl
+          | some p => simp only; rw [ih]
+
+theorem ctxFind_filter_none (cs : List CtxEntry) (ty : Nat) :
+    ctxFind (cs.filter fun x => x.ty != ty) ty = none := by
+  unfold ctxFind
+  rw [List.find?_eq_none]
+  intro x hx
+  have := (List.mem_filter.mp hx).2
+  simpa using this
+
+theorem ctxAt_after_take (st : Core) (a ty x : Nat) :
+    ctxAt (st.modOwner a fun r => { r with contexts := r.contexts.filter fun e => e.ty != ty }) x ty =
+      if x = a then none else ctxAt st x ty := by
+  unfold ctxAt
+  rw [modOwner_get]
+  by_cases hxa : x = a
+  · simp only [hxa, if_true]
+    cases st.owners[a]? with
+    | none => rfl
+    | some r => simp only [Option.map_some]; exact ctxFind_filter_none _ _
+  · simp only [hxa, if_false]
+
+theorem findSome_skip {β : Type} (l : List Nat) (a : Nat) (f : Nat → Option β) :
+    l.findSome? (fun x => if x = a then none else f x) = (l.filter (· != a)).findSome? f := by
+  induction l with
+  | nil => rfl
+  | cons y ys ih =>
+    by_cases hya : y = a
+    · simp [List.findSome?_cons, hya, ih]
+    · simp only [List.findSome?_cons, hya, if_false, ih]
+      have : (y != a) = true := by simpa using hya
+      simp only [List.filter_cons, this, if_true, List.findSome?_cons]
+
+/-- the lookup after the entry of owner `a` has been taken = the lookup before it over the same
+chain of owners with `a` left out -/
+theorem lookup_after_take (f : Nat) (st : Core) (o ty a : Nat) :
+    lookup f (st.modOwner a fun r => { r with contexts := r.contexts.filter fun x => x.ty != ty }) o ty =
+      ((chain f st o).filter (· != a)).findSome? fun x => (ctxAt st x ty).map fun e => (x, e) := by
+  have hch := chain_modOwner f st a
+    (fun r => { r with contexts := r.contexts.filter fun x => x.ty != ty }) (fun _ => rfl) (fun _ => rfl) o
+  rw [lookup_eq_chain, hch, ← findSome_skip]
+  congr 1
+  funext x
+  rw [ctxAt_after_take]
+  split <;> rfl
+
+theorem lookup_congr (f : Nat) {s1 s2 : Core} (h : s1.owners = s2.owners) (o ty : Nat) :
+    lookup f s1 o ty = lookup f s2 o ty := by
+  induction f generalizing o with
+  | zero => rfl
+  | succ n ih =>
+    simp only [lookup, h]
+    cases s2.owners[o]? with
+    | none => rfl
+    | some r =>
+      simp only
+      split
+      · rfl
+      · split
+        · rfl
+        · cases r.parent with
+          | none => rfl
+          | some p => exact ih p
+
+theorem aliveB_modOwner (st : Core) (a : Nat) (g : OwnerRec → OwnerRec) (ha : ∀ r, (g r).alive = r.alive)
+    (x : Nat) : (st.modOwner a g).aliveB x = st.aliveB x := by
+  unfold Core.aliveB
+  rw [modOwner_get]
+  by_cases hxa : x = a
+  · simp only [hxa, if_true]
+    cases st.owners[a]? with
+    | none => rfl
+    | some r => simp only [Option.map_some, ha]
+  · simp only [hxa, if_false]
+
+/-- the owner table after `take_context` has removed the entry of owner `a` -/
+def taken (st : Core) (a ty : Nat) : Core :=
+  st.modOwner a fun r => { r with contexts := r.contexts.filter fun x => x.ty != ty }
+
+theorem takeCtx_shape {st : Core} {ty a : Nat} {e : CtxEntry} (hl : lookupCur st ty = some (a, e)) :
+    (takeCtx st ty).owners = (taken st a ty).owners ∧ (takeCtx st ty).cur = st.cur := by
+  unfold takeCtx
+  rw [hl]
+  exact ⟨rfl, modOwner_cur _ _ _⟩
+
+theorem aliveB_takeCtx {st : Core} {ty a : Nat} {e : CtxEntry} (hl : lookupCur st ty = some (a, e)) (x : Nat) :
+    (takeCtx st ty).aliveB x = st.aliveB x := by
+  have h1 : (takeCtx st ty).aliveB x = (taken st a ty).aliveB x := by
+    unfold Core.aliveB; rw [(takeCtx_shape hl).1]
+  rw [h1]
+  unfold taken
+  exact aliveB_modOwner st a (fun r => { r with contexts := r.contexts.filter fun x => x.ty != ty })
+    (fun _ => rfl) x
+
+theorem taken_length (st : Core) (a ty : Nat) : (taken st a ty).owners.length = st.owners.length := by
+  unfold taken Core.modOwner
+  split
+  · simp [Core.setOwner]
+  · rfl
+
 end Leptos.Owner
